@@ -60,9 +60,9 @@ def run(ctx):
                     req.append(("computeOrthotropicStiffnessTensor<%s,%s,%s,%s>" % (h, s, c, t), None, 50))
             req.append(("computeAlteredElasticStiffness<%s,%s>" % (h, t), None, 50))
             req.append(("ComputeAlteredStiffnessTensor<%s,%s>" % (h, t), None, 50))
-    ctx.run_events(b["asan"], ctx.n(50000, 800000), require=req, timeout=3600, keymap=keymap)
+    ctx.run_events(b["asan"], ctx.n(50000, 400000), require=req, timeout=3600, keymap=keymap)
     if ctx.thorough:
-        ctx.run_events(b["O2"], 2000000, require=[], timeout=3600, keymap=keymap)
+        ctx.run_events(b["O2"], 1000000, require=[], timeout=3600, keymap=keymap)
     ctx.assumptions += [
         "PIPE convention: in plane stress / plane strain / generalised plane strain the 2nd and 3rd material axes are exchanged (tfel-material.md 'Orthotropic axes convention'), so the in-plane shear modulus is G13 and nu32 = nu23 E3/E2",
         "ALTERED in AxisymmetricalGeneralisedPlaneStress condenses the third stored component, as Lame.hxx and StiffnessTensor.ixx both do (documentation silent on which axis)",
